@@ -15,6 +15,7 @@ PROPERTY_MODULES = {
     "C19": ["contracts.c19"],
     "C20": ["contracts.c20"],
     "C14": ["contracts.c14"],
+    "C15": ["contracts.c15"],
     "C16": ["contracts.c16"],
     "C17": ["contracts.c17"],
     "C18": ["contracts.c05", "contracts.c06", "contracts.c18"],
